@@ -224,3 +224,28 @@ pub fn unb64(s: &str) -> Option<Vec<u8>> {
     }
     Some(out)
 }
+
+/// Plaintexts whose CONTENT (not only length) is special: runs of zeros and 0xff aligned with, and
+/// straddling, the 64 KiB chunk size - at the start, in the middle, at the end, and the whole file.
+pub fn content_families(rng: &mut Rng) -> Vec<(&'static str, Vec<u8>)> {
+    const C: usize = 65536;
+    let cat = |parts: Vec<Vec<u8>>| parts.concat();
+    vec![
+        ("all zeros, two chunks", vec![0u8; 2 * C]),
+        ("random chunk then a zero chunk", cat(vec![rng.bytes(C), vec![0u8; C]])),
+        ("zero chunk, random chunk, two zero chunks", cat(vec![vec![0u8; C], rng.bytes(C), vec![0u8; 2 * C]])),
+        ("random then zeros one byte short of a chunk", cat(vec![rng.bytes(C), vec![0u8; C - 1]])),
+        ("zeros, three chunks minus one byte", vec![0u8; 3 * C - 1]),
+        ("one zero chunk", vec![0u8; C]),
+        ("all 0xff, two chunks", vec![0xffu8; 2 * C]),
+        ("random with a zero run across the chunk boundary", {
+            let mut v = rng.bytes(2 * C + 10);
+            for b in &mut v[C - 40_000..C + 40_000] {
+                *b = 0;
+            }
+            v
+        }),
+        ("single zero byte", vec![0u8]),
+        ("newlines only", vec![b'\n'; C + 1]),
+    ]
+}
